@@ -73,7 +73,8 @@ class C16(Prop):
     async def run_case(self, case, acc, ctx):
         i = case["i"]
         r = env.rng("C16", case["seed"], i)
-        toggle, special = bool(i & 1), bool(i & 2)
+        kind_no = env.sig("remote-kind", i) % 4     # not i mod 4: every worker sees all four kinds of remote
+        toggle, special = bool(kind_no & 1), bool(kind_no & 2)
         irset = gen.irset(r, toggle=toggle, special=special, density=r.choice([1.0, 1.0, 0.85, 0.5]), long_codes=(i % 3 == 0))
         remote = tcpwork.make_remote(irset)
         did, key = gen.device_id(r), gen.device_key(r)
